@@ -724,6 +724,104 @@ func syncOvertake(m *meta, rng *rand.Rand, round int) {
 	m.count("sync_overtake_rounds")
 }
 
+// newAdopted builds a one-shard cache whose write worker is schedulable thread 1000, parked before its select.
+func newAdopted(conf kioshun.Config) (*kioshun.Cache[int, int], bool) {
+	kioshun.VerifSchedReset(true, 300*time.Millisecond)
+	kioshun.VerifSchedAdoptWorkers(true)
+	c, err := kioshun.New[int, int](conf)
+	must(err)
+	for i := 0; i < 2000 && !kioshun.VerifSchedKnown(1000); i++ {
+		time.Sleep(100 * time.Microsecond)
+	}
+	kioshun.VerifSchedAdoptWorkers(false)
+	if !kioshun.VerifSchedKnown(1000) || stepUntil(1000, 301) != 301 {
+		return c, false
+	}
+	return c, true
+}
+
+// closeAdopted closes c from thread 99 while stepping the adopted worker, then switches the scheduler off.
+func closeAdopted(m *meta, c *kioshun.Cache[int, int], ctx string) {
+	kioshun.VerifSchedSpawn(99, func() { c.Close() })
+	closed, workerDone := false, false
+	for i := 0; i < 60 && !closed; i++ {
+		if p := stepUntil(99, -100); p == kioshun.VerifStepDone {
+			closed = true
+			break
+		}
+		if !workerDone {
+			if p := stepUntil(1000, -100); p == kioshun.VerifStepDone {
+				workerDone = true
+			}
+		}
+	}
+	kioshun.VerifSchedReset(false, 0)
+	if !closed {
+		for _, p := range []string{"C07", "C08"} {
+			m.violate(p, ctx+": Close did not return although the worker was run to completion", ctx)
+		}
+	}
+}
+
+// syncFence (C04, deterministic): the worker has DEQUEUED an accepted SetAsync (ring quiescent again) but not yet
+// applied it; Sync called now must not return before the write is visible.
+func syncFence(m *meta, rng *rand.Rand, round int) {
+	conf := kioshun.Config{ShardCount: 1, EvictionPolicy: pick(rng, []kioshun.EvictionPolicy{kioshun.LRU, kioshun.SieveTinyLFU, kioshun.FIFO, kioshun.LFU}), WriteBufferSize: pick(rng, []int{2, 4, 8}), WriteBatchSize: pick(rng, []int{1, 2, 64})}
+	ctx := fmt.Sprintf("sync fence round %d cfg %+v", round, conf)
+	watch(ctx)
+	defer unwatch()
+	c, ok := newAdopted(conf)
+	if !ok {
+		m.count("fence_setup_failed")
+		m.sample(fmt.Sprintf("fence setup: worker known=%v", kioshun.VerifSchedKnown(1000)))
+		kioshun.VerifSchedReset(false, 0)
+		return
+	}
+	kioshun.VerifSchedSpawn(1, func() { c.Set(900, 1, kioshun.NoExpiration) })
+	if p := stepUntil(1, 332); p != 332 {
+		m.count("fence_setup_failed")
+		stepUntil(1, -100)
+		closeAdopted(m, c, ctx)
+		return
+	}
+	if e := c.SetAsync(7, 1, kioshun.NoExpiration); e != nil { // token busy: queued, returns
+		m.violate("C04", ctx+": SetAsync failed", ctx)
+	}
+	stepUntil(1, -100)
+	if p := stepUntil(1000, 312); p != 312 { // worker: wake, token, dequeue, parked before the shard lock
+		m.count("fence_setup_failed")
+		m.sample(fmt.Sprintf("fence setup: worker stopped at %d instead of 312", p))
+		closeAdopted(m, c, ctx)
+		return
+	}
+	var serr error
+	kioshun.VerifSchedSpawn(3, func() { serr = c.Sync() })
+	p3 := stepUntil(3, -100)
+	if p3 == kioshun.VerifStepDone {
+		if v, ok := c.Get(7); serr == nil && (!ok || v != 1) {
+			m.violate("C04", fmt.Sprintf("%s: SetAsync(7,1) had returned, Sync then returned nil while the worker still held the dequeued command: Get(7)=(%d,%v)", ctx, v, ok), ctx)
+		}
+	}
+	stepUntil(1000, 301)
+	if p3 != kioshun.VerifStepDone {
+		for i := 0; i < 6 && p3 != kioshun.VerifStepDone; i++ {
+			p3 = stepUntil(3, -100)
+			if p3 != kioshun.VerifStepDone {
+				stepUntil(1000, 301)
+			}
+		}
+		if p3 != kioshun.VerifStepDone {
+			for _, p := range []string{"C04", "C07"} {
+				m.violate(p, fmt.Sprintf("%s: Sync did not return after the worker applied everything and went idle (step result %d)", ctx, p3), ctx)
+			}
+		} else if v, ok := c.Get(7); serr != nil || !ok || v != 1 {
+			m.violate("C04", fmt.Sprintf("%s: after Sync (err %v) Get(7)=(%d,%v), want (1,true)", ctx, serr, v, ok), ctx)
+		}
+	}
+	closeAdopted(m, c, ctx)
+	m.count("sync_fence_rounds")
+}
+
 // flickerProbe replays the schedule of C02.v's c02_atomic_refuted on the real cache through the yield hooks:
 // a reader parked after loading a matching tag, the key deleted and re-inserted into the same slot, the
 // writer parked between publish's item store and tag store. Finding F10 when it reproduces.
@@ -990,6 +1088,7 @@ func streamConc(o opts) {
 			expiryRace(m, rng, r)
 			stalledProducer(m, rng, r)
 			syncOvertake(m, rng, r)
+			syncFence(m, rng, r)
 			m.nontrivial(fmt.Sprintf("async+close/%d", r%16))
 		case 3:
 			tableRace(m, rng, r)
